@@ -431,7 +431,7 @@ def deep_strings(rng, tier, deep):
     for l in range(1, n_tok + 1):
         for t in itertools.product(toks, repeat=l):
             out.append("".join(t))
-    extra = 250000 if tier == "thorough" else (60000 if deep else 12000)
+    extra = 400000 if tier == "thorough" else (60000 if deep else 12000)
     for _ in range(extra):
         l = rng.randint(n_tok + 1, 9)
         out.append("".join(rng.choice(toks) for _ in range(l)))
